@@ -1,18 +1,20 @@
-(** C08 — totality.  Proved so far (components): one call of the online
+(** C08 — totality.  Proved: (strings, matching) [c08_string_run_total] — on every
+    automaton that passes wf_check and arity_ok the modelled traversal never
+    reaches a panic site and terminates: for every host there is a fuel bound
+    beyond which [run] returns [Ok] (the measure: items weigh (B+1)^(rmax - rank)
+    with B a bound on the successors of one item, so the queue gets lighter at
+    every step of the acyclic automaton).  Components: one call of the online
     toposort terminates without panic on closed graphs (the builder's driver);
     the repaired default retain_keys never panics on prerequisite-closed key
-    sets for the string and matrix maps; reading a binding map never panics
-    inside a well-formed matrix map whose listed keys have non-negative
-    positions.  Construction and matching as a whole (no panic, no divergence for
-    every well-formed pattern set and host) are decided by exploration: every
-    generated and degenerate case of every other property is run under
-    catch_unwind (overflow and debug assertions enabled) with a wall-clock
-    limit, and the Ok/Panic status of the model's traversal on the dumped
-    automaton is compared with the implementation's.  [c08_run_total] (no
-    engine panic site is reachable on a well-formed automaton, and a fuel bound)
-    is the missing theorem. *)
+    sets for the string and matrix maps.  Construction as a whole, and matching
+    on matrices and port graphs, are decided by exploration: every generated
+    and degenerate case of every other property is run under catch_unwind
+    (overflow and debug assertions enabled) with a wall-clock limit, and the
+    Ok/Panic status of the model's traversal on the dumped automaton is compared
+    with the implementation's. *)
 From PM Require Import Model.Prelude Model.Domain Model.BindMaps Model.DomString Model.DomMatrix
-  Model.Toposort Proofs.ToposortProofs Proofs.BindMapHistories Proofs.BindMapMatrixProofs.
+  Model.Automaton Model.Traversal Cert.WfCheck Cert.ExampleAut
+  Model.Toposort Proofs.ToposortProofs Proofs.BindMapHistories Proofs.BindMapMatrixProofs Proofs.StringTotal.
 
 Theorem c08_toposort_next_total_partial :
   forall g order, t_closed g ->
@@ -27,6 +29,18 @@ Theorem c08_matrix_retain_total_partial :
   forall order m, mm_wf m -> m_good m order -> exists m', m_retain order m = Ok m'.
 Proof. exact m_retain_total. Qed.
 
+(** strings: matching never panics and terminates *)
+Theorem c08_string_run_total :
+  forall (A : automaton N cpredicate) (rk : list (N * nat)) (ids : list N) (h : shost),
+    wf_check string_dom A rk ids = true -> arity_ok string_dom A = true ->
+    exists fuel0, forall fuel, (fuel0 <= fuel)%nat -> exists ms, run string_dom fuel A h = Ok ms.
+Proof. exact s_run_total. Qed.
+
+Example c08_example :
+  wf_check string_dom ex_aut (compute_rank ex_aut) [0; 1; 2]%N = true /\ arity_ok string_dom ex_aut = true.
+Proof. vm_compute. auto. Qed.
+
 Print Assumptions c08_toposort_next_total_partial.
+Print Assumptions c08_string_run_total.
 Print Assumptions c08_string_retain_total_partial.
 Print Assumptions c08_matrix_retain_total_partial.
